@@ -248,6 +248,9 @@ func (h *vHBase) SendRPC(rpc hrpc.Call) (proto.Message, error) {
 // symbolic boundaries.
 func vCluster() *vHBase {
 	h := &vHBase{maxResp: verifParam("RESP")}
+	if vScannerIDsFromZero {
+		h.nextID = ^uint64(0)
+	}
 	nrows := verifParam("ROWS")
 	var prev []byte
 	for i := 0; i < nrows; i++ {
@@ -317,6 +320,16 @@ func vNewScan(ctx context.Context, start, stop []byte, reversed, partials bool) 
 	return s
 }
 
+// vScannerIDsFromZero: the model server numbers its region scanners 0, 1, 2, ... instead of
+// 1, 2, 3, ... (a scanner id is opaque to the client; 0 is a legal id).
+var vScannerIDsFromZero bool
+
+// VerifScanID0 is VerifScan against a server whose first region scanner has id 0.
+func VerifScanID0() {
+	vScannerIDsFromZero = true
+	VerifScan()
+}
+
 // VerifScan (C06): the rows returned until io.EOF are exactly the rows in range, in scan
 // order, each once and whole (with partial results allowed: fragments concatenate to rows).
 func VerifScan() {
@@ -379,9 +392,11 @@ func VerifScanEndings() {
 	sc := newScanner(h, vNewScan(ctx, start, stop, reversed, false), vLogger())
 
 	h.earlyStop = true
-	ending := verifInt(0, 3)
+	// 0 Close, 1 a request fails, 2 cancellation, 3 nothing, 4 a request fails and the scan's
+	// context is cancelled after that error has been reported
+	ending := verifInt(0, 4)
 	at := verifInt(0, 3) // Next calls before the ending event (close / cancel), or failing request - 1
-	if ending == 1 {
+	if ending == 1 || ending == 4 {
 		h.failAt = at + 1
 	}
 	errs := 0
@@ -403,9 +418,13 @@ func VerifScanEndings() {
 		case err != nil:
 			errs++
 			verifAssert(errs == 1, "an error or a cancellation is reported once, end-of-scan from then on")
-			if ending == 1 {
+			if ending == 1 || ending == 4 {
 				verifAssert(err == vErrApp, "the request's error is returned unchanged")
 				verifReach("failed")
+				if ending == 4 {
+					cancel()
+					verifReach("failed-then-cancelled")
+				}
 			} else {
 				verifAssert(ending == 2 && err == context.Canceled, "only a cancelled scan reports the context error")
 			}
@@ -458,5 +477,7 @@ func VerifCancelScan() {
 	}
 	verifAssert(done, "Next returns once the scan's context is cancelled, although the server is silent")
 	verifAssert(nerr == context.Canceled, "it returns the context's error")
+	r2, err2 := sc.Next()
+	verifAssert(err2 == io.EOF && r2 == nil, "the cancellation is reported once, end-of-scan from then on")
 	verifReach("cancelled")
 }
